@@ -35,6 +35,26 @@ class Timeout(Exception):
     pass
 
 
+# ---- run-time wrapping (no source hook): did a cache retrieval visit a level of the index that holds both the
+# wildcard and a concrete key?  That is the signature of known finding C20-wildcard-preference (DESIGN.md 5.5).
+from entity_query_language import cache_data as _cd
+from entity_query_language.utils import All as _All
+TRACE = {'mixed': False, 'retrievals': 0}
+_orig_retrieve = _cd.IndexedCache.retrieve
+
+
+def _retrieve(self, assignment=None, cache=None, key_idx=0, result=None, from_index=True):
+    node = self.cache if cache is None else cache
+    if from_index and isinstance(node, _cd.CacheDict) and len(node) > 1 and any(k is _All for k in node.keys()):
+        TRACE['mixed'] = True
+    if cache is None:
+        TRACE['retrievals'] += 1
+    return _orig_retrieve(self, assignment, cache, key_idx, result, from_index)
+
+
+_cd.IndexedCache.retrieve = _retrieve
+
+
 def _alarm(*a):
     raise Timeout()
 
@@ -173,8 +193,12 @@ def run(case):
         except Exception as e:
             res[cfg] = res[cfg + '2'] = 'X build:' + type(e).__name__
             continue
+        TRACE['mixed'], TRACE['retrievals'] = False, 0
         res[cfg] = guarded(lambda: rows_of(q, sel, case.get('form'), objs))
         res[cfg + '2'] = guarded(lambda: rows_of(q, sel, case.get('form'), objs))
+        if cfg == 'on':
+            res['mixed_level_retrieval'] = TRACE['mixed']
+            res['cache_retrievals'] = TRACE['retrievals']
     enable_caching()
     return res
 
